@@ -74,19 +74,19 @@ theorem hxp_loop2 (fuel : Nat) (p : α) (h : ESL_HYPEREXP α) : ∀ (n : Nat) (x
 
 theorem hxp_loop1 (fuel : Nat) (p : α) (h : ESL_HYPEREXP α) (x1 : α) : ∀ (n : Nat) (x2 : α),
     esl_hxp_invcdf_loop1 fuel p h 1.0e-6 x1 x2 n =
-      (bracketRight (fun x => esl_hxp_cdf x h) p x1 n x2).bind fun x2 => bisect (fun x => esl_hxp_cdf x h) p h.mu fuel x1 x2 := by
+      (bracketRightLim (fun x => esl_hxp_cdf x h) p x1 n x2).bind fun x2 => bisect (fun x => esl_hxp_cdf x h) p h.mu fuel x1 x2 := by
   intro n
   induction n with
   | zero => intro x2; rfl
   | succ n ih =>
     intro x2
-    simp only [esl_hxp_invcdf_loop1, esl_hxp_invcdf_exit1, bracketRight, ih, hxp_loop2]
+    simp only [esl_hxp_invcdf_loop1, esl_hxp_invcdf_exit1, bracketRightLim, ih, hxp_loop2]
     split <;> rfl
 
 theorem hxp_invcdf (fuel : Nat) (p : α) (h : ESL_HYPEREXP α) :
-    esl_hxp_invcdf fuel p h = invcdfRight fuel (fun x => esl_hxp_cdf x h) p h.mu := by
-  simp only [esl_hxp_invcdf, hxp_loop1, invcdfRight]
-  cases bracketRight (fun x => esl_hxp_cdf x h) p h.mu fuel (h.mu + 1.0) <;> rfl
+    esl_hxp_invcdf fuel p h = invcdfRightLim fuel (fun x => esl_hxp_cdf x h) p h.mu := by
+  simp only [esl_hxp_invcdf, hxp_loop1, invcdfRightLim]
+  cases bracketRightLim (fun x => esl_hxp_cdf x h) p h.mu fuel (h.mu + 1.0) <;> rfl
 
 /-! ### mixture of GEVs -/
 
@@ -99,19 +99,19 @@ theorem mixgev_loop3 (fuel : Nat) (p : α) (mg : ESL_MIXGEV α) : ∀ (n : Nat) 
 
 theorem mixgev_loop2 (fuel : Nat) (p : α) (mg : ESL_MIXGEV α) (x1 : α) : ∀ (n : Nat) (x2 : α),
     esl_mixgev_invcdf_loop2 fuel p mg 1.0e-6 x2 x1 n =
-      (bracketRight (fun x => esl_mixgev_cdf x mg) p x1 n x2).bind fun x2 => bisectMix (fun x => esl_mixgev_cdf x mg) p fuel x1 x2 := by
+      (bracketRightLim (fun x => esl_mixgev_cdf x mg) p x1 n x2).bind fun x2 => bisectMix (fun x => esl_mixgev_cdf x mg) p fuel x1 x2 := by
   intro n
   induction n with
   | zero => intro x2; rfl
   | succ n ih =>
     intro x2
-    simp only [esl_mixgev_invcdf_loop2, esl_mixgev_invcdf_exit2, bracketRight, ih, mixgev_loop3]
+    simp only [esl_mixgev_invcdf_loop2, esl_mixgev_invcdf_exit2, bracketRightLim, ih, mixgev_loop3]
     split <;> rfl
 
 theorem mixgev_loop1 (fuel : Nat) (p : α) (mg : ESL_MIXGEV α) (x2 : α) : ∀ (n : Nat) (x1 : α),
     esl_mixgev_invcdf_loop1 fuel p mg 1.0e-6 x2 x1 n =
       (bracketLeft (fun x => esl_mixgev_cdf x mg) p x2 n x1).bind fun x1 =>
-        (bracketRight (fun x => esl_mixgev_cdf x mg) p x1 fuel x2).bind fun x2 => bisectMix (fun x => esl_mixgev_cdf x mg) p fuel x1 x2 := by
+        (bracketRightLim (fun x => esl_mixgev_cdf x mg) p x1 fuel x2).bind fun x2 => bisectMix (fun x => esl_mixgev_cdf x mg) p fuel x1 x2 := by
   intro n
   induction n with
   | zero => intro x1; rfl
@@ -127,7 +127,7 @@ theorem mixgev_invcdf (fuel : Nat) (p : α) (mg : ESL_MIXGEV α) :
   | none => rfl
   | some x1 =>
     simp only [Option.bind]
-    cases bracketRight (fun x => esl_mixgev_cdf x mg) p x1 fuel (esl_vec_DMin mg.mu mg.K) <;> rfl
+    cases bracketRightLim (fun x => esl_mixgev_cdf x mg) p x1 fuel (esl_vec_DMin mg.mu mg.K) <;> rfl
 
 /-! ### the generic-API wrappers forward to the scalar functions -/
 
